@@ -18,6 +18,10 @@ CHECKS = {
          "deterministic simulation: seeded histories (insert/remove/update/save+load/search) on the real index with simulator-owned map iteration order, checked against a reference map; seeded search over histories and orders with shrinking",
          "Seeded search over operation histories, index parameters and owned map-iteration orders; every search result is checked against a reference map (live ids only, current metadata, score = space.Distance to the current vector, ascending, unique, <= k, non-empty when the collection is non-empty). A clean batch is evidence, not proof.",
          "Distances computed with the repository's own space.Distance (same dispatch); zero vectors under cosine excluded (C12 domain); index half of the property only until the cluster world adds the dataset half."),
+ "C08": ("exploration", "DESIGN.md §3 C08, §2.5 World I",
+         "deterministic simulation: seeded histories produce the saved state; a simulated io.Reader (1-byte reads, random short reads, data-with-EOF, trailing bytes) feeds Load; dump-before-save vs dump-after-load oracle; worker address-space limit turns count-sized allocations into observations",
+         "Seeded search over saved states (empty, emptied, after removals/updates/hand-overs, rich metadata), header flag, reader fragmentation and load target (fresh, other parameters, used index). Oracle: Load of own output succeeds, consumes exactly the bytes written, and the dump (ids, bit-identical vectors, metadata, levels, live links, entry point, both counters) equals the dump before Save.",
+         "Reader faults are those io.Reader permits; truncated/corrupted input is outside the statement. Memory proportionality is observed only through a 2 GiB address-space limit per worker."),
 }
 
 NOT_APPLICABLE = {
